@@ -52,7 +52,8 @@ structure Renamer (σ : Type) where
 
 def realNameRenamer : Renamer RealState := { call := fileRenamer, view := (·.fs) }
 def realPathRenamer : Renamer RealState := { call := fileMover, view := (·.fs) }
-def dryRenamer : Renamer DryState := { call := dryRunRenamer, view := (·.base) }
+def dryRenamer : Renamer DryState := { call := dryRunRenamer, view := (·.base) }            -- name / directory mode
+def dryPathRenamer : Renamer DryState := { call := dryRunMover, view := (·.base) }       -- path mode
 
 structure Run (σ : Type) where
   st : σ
